@@ -250,6 +250,8 @@ def main():
                 cs = n.args[1].elts if isinstance(n.args[1], ast.Tuple) else [n.args[1]]
                 for c in cs:
                     cname = c.attr if isinstance(c, ast.Attribute) else c.id if isinstance(c, ast.Name) else None
+                    if cname == "string_type":
+                        continue
                     if cname is None or not hasattr(C, cname):
                         raise Refused("%s: isinstance against an unknown class" % ".".join(path))
                     out.append((c.lineno, c.col_offset, CSSRule._typestrings[getattr(C, cname)().type]))
@@ -260,8 +262,39 @@ def main():
     b.append("(* containers: kinds refused by insertRule (isinstance lists) and by the @media parser *)")
     b.append("Definition media_forbidden_insert : list kind := %s." % klist(
         isinstance_kinds(["CSSMediaRule", "insertRule"], "css/cssmediarule.py")))
-    b.append("Definition page_forbidden_insert : list kind := %s." % klist(
-        isinstance_kinds(["CSSPageRule", "insertRule"], "css/csspagerule.py")))
+    # CSSPageRule.insertRule: either the old `isinstance(...) or ...` list of refused classes, or
+    # `if not isinstance(rule, MarginRule)` (only these are taken) + text parsed as a margin rule + merge of a
+    # margin that is already there
+    pf = find_func(ast.parse(src("css/csspagerule.py")), ["CSSPageRule", "insertRule"])
+    neg = [n for n in ast.walk(pf) if isinstance(n, ast.UnaryOp) and isinstance(n.op, ast.Not)
+           and isinstance(n.operand, ast.Call) and isinstance(n.operand.func, ast.Name)
+           and n.operand.func.id == "isinstance"]
+    listed = isinstance_kinds(["CSSPageRule", "insertRule"], "css/csspagerule.py")
+    n_isinst = len([n for n in ast.walk(pf) if isinstance(n, ast.Call) and isinstance(n.func, ast.Name)
+                    and n.func.id == "isinstance"])
+    text_branch = [n for n in pf.body if isinstance(n, ast.If) and "string_type" in ast.unparse(n.test)]
+    if neg:
+        # isinstance calls: the string test of the text branch and the negated hierarchy test
+        if len(neg) != 1 or n_isinst != 1 + len(text_branch):
+            raise Refused("CSSPageRule.insertRule: unexpected isinstance tests")
+        allowed = [k for k in listed]          # classes named by the negated test
+        page_forbidden = [k for k in order if k not in allowed]
+    else:
+        if text_branch:
+            raise Refused("CSSPageRule.insertRule: text branch without the margin-only test")
+        page_forbidden = listed
+    if text_branch and not (len(text_branch) == 1 and text_branch[0] is pf.body[1 if isinstance(pf.body[0], ast.Expr) else 0]
+                            and "MarginRule()" in ast.unparse(text_branch[0])):
+        raise Refused("CSSPageRule.insertRule: unexpected text branch")
+    merges = [n for n in ast.walk(pf) if isinstance(n, ast.For) and "r.margin == rule.margin" in ast.unparse(n)]
+    if merges and not (len(merges) == 1 and isinstance(merges[0].body[0], ast.If)
+                       and isinstance(merges[0].body[0].body[-1], ast.Return)):
+        raise Refused("CSSPageRule.insertRule: unexpected merge loop")
+    b.append("Definition page_forbidden_insert : list kind := %s." % klist(page_forbidden))
+    b.append("Definition page_text_as_margin : bool := %s.   (* insertRule(text) parses the text with MarginRule().cssText *)"
+             % ("true" if text_branch else "false"))
+    b.append("Definition page_merges_duplicates : bool := %s.   (* a margin that is already there is merged, not inserted *)"
+             % ("true" if merges else "false"))
     mtree = ast.parse(src("css/cssmediarule.py"))
     at = None
     for n in ast.walk(find_func(mtree, ["CSSMediaRule", "_setCssText"])):
